@@ -2,6 +2,8 @@
 //! One result line per input line, same order as the extracted-model driver (ocaml/main.ml).
 mod util;
 mod ops_core;
+mod canon;
+mod ops_types;
 
 use std::io::{BufRead, BufWriter, Write};
 
@@ -11,6 +13,9 @@ fn handler(op: &str) -> Option<Handler> {
     match op {
         "E" => Some(ops_core::e_handler),
         "D" => Some(ops_core::d_handler),
+        "RT" => Some(ops_types::rt_handler),
+        "DT" => Some(ops_types::dt_handler),
+        "PFX" => Some(ops_types::pfx_handler),
         _ => None
     }
 }
